@@ -275,6 +275,8 @@ FailurePropagates ==
 FailurePropagatesLive ==
     \A d, x \in Mod : (wFailedStarting[d] /\ x \in DS(d) /\ wStarted[x]) ~> (wst[x] = "Failed")
 
+FailureIsReported == FailureReported(svc, wst, sst)
+
 (* once every wrapper has been asked to stop, everything stops - whenever that happens *)
 Termination == <>[](AllStopped(svc, wst, sst))
 (* (safety form, checked as absence of deadlock: the only states without a step other than Done *)
